@@ -10,20 +10,23 @@ U10M = ("u10_typed_trace", {"which": "mapper"})
 U10C = ("u10_typed_trace", {"which": "cache"})
 
 U5 = ("u5_parser", {})
+U6M = ("u6_mapper_step", {})
 U8 = ("u8_writer_tail", {})
 U9 = ("u9_selftest", {})
 U3 = ("u3_interpretation", {})
 U4 = ("u4_cache_parse", {})
 U7 = ("u7_metadata", {})
 
-BUILDERS_ASSUMED = ("ProguardMapper::create_proguard_mapper and the record-collection loop of ProguardCache::write "
-                    "(HashMap/BTreeMap entry API, Peekable<FilterMap<..>>, HashSet) are outside both verifiers' reach: that they "
-                    "store, per (class, obfuscated method), the method records in file order is ASSUMED")
+BUILDERS_ASSUMED = ("of the two builder loops (ProguardMapper::create_proguard_mapper, collection loop of ProguardCache::write) the bodies of the "
+                    "three match arms are under contract as R5 regions (units u6_*: what one Header / Class / Method record does to the state); "
+                    "the loop plumbing around them -- `while let Some(record) = records.next()`, `match record`, `records.peek()` "
+                    "(Peekable<FilterMap<..>>), the final flush of the last class -- is ASSUMED to feed each record to its arm once, in file order, "
+                    "with the real next record; HashMap/BTreeMap entry API and HashSet::insert sit behind assumed shims")
 
 PROPS = {
     "C01": {
         "title": "Line-based retrace returns exactly the recorded call stack",
-        "units": [U1F, U2F, U3],
+        "units": [U1F, U2F, U3, U6M],
         "kani": [],
         "technique": "Verus (Z3) function contracts on mechanically extracted reader code: iterate_with_lines/next == head of spec retrace(); remap_frame == exact entry block",
         "level_text": "Deductive proof, for all field values / slice lengths / iterations, that both readers' frame iterators yield exactly "
@@ -38,7 +41,7 @@ PROPS = {
     },
     "C02": {
         "title": "A cache written from a mapping answers every query exactly like the mapper",
-        "units": [U1F, U2F, U8, U3],
+        "units": [U1F, U2F, U8, U3, U6M],
         "kani": [],
         "technique": "refinement: both readers proved (Verus) against the SAME spec functions retrace/by_params/unanimous through abs_member / abs_mm",
         "level_text": "Both readers are verified against one shared abstract model, so equal abstract entries give equal answers for remap_class, "
@@ -49,7 +52,7 @@ PROPS = {
     },
     "C03": {
         "title": "Parameter-based retrace",
-        "units": [U1F, U2F, U8],
+        "units": [U1F, U2F, U8, U6M],
         "kani": [],
         "technique": "Verus contracts: iterate_without_lines == head of by_params(); remap_frame(by params) == exact (name, params) block",
         "level_text": "Proof that a frame carrying parameters is answered from exactly the entries whose (obfuscated name, params) match, one frame "
@@ -59,7 +62,7 @@ PROPS = {
     },
     "C04": {
         "title": "Class lookup exact; method lookup never guesses",
-        "units": [U1F, U2F],
+        "units": [U1F, U2F, U6M],
         "kani": [],
         "technique": "Verus contracts on get_class / remap_class / remap_method (iff-unanimous postcondition), both readers",
         "level_text": "Proof that remap_class answers iff a class with exactly that obfuscated name exists, and remap_method answers (class, m) iff "
@@ -201,7 +204,7 @@ PROPS = {
     },
     "C13": {
         "title": "No mapping bytes and no query can make the library panic or overflow",
-        "units": [U2S, U5, U7, U10M, U3, U8, U9],
+        "units": [U2S, U5, U7, U10M, U3, U8, U9, U6M],
         "kani": ["k3_java_base_types"],
         "technique": "Verus implicit obligations on the mapper reader with NO precondition on entry values",
         "level_text": "The mapper's reader functions are verified with arbitrary usize entry values and any frame: no overflow, no out-of-bounds, termination.",
